@@ -147,7 +147,7 @@ def run(ctx):
                 if x.get('rt') and x['msg'] == v['msg']: return dict(kind='roundtrip', src=x['rt']['src'], pretty=pretty)
             return None
         r = oblig.run(oid, [(oid, code_case(h, vm, ops, unames, pretty))], ctx, funcs, 'all five tree shapes over three binary operators chosen from %d loaded operators covering all precedence levels and arity classes (%s), one leaf optionally a unary applied to an array; %s' % (len(ops), ' '.join(ops), 'CLI pretty printer' if pretty else 'str + compile'),
-                      assumptions=['allocation failure is out of scope', 'equality of code is checked as equality of instruction listings (assembly__)'], case_timeout=1500, keyfn=lambda cid, v, rr, oid=oid: oid + ':' + next((x['rt']['cls'] for x in rr.get('violations', []) if x.get('rt') and x['msg'] == v['msg']), v.get('msg', '')[:70].replace(' ', '_')), replayfn=rep, step_limit=2_000_000_000,
+                      assumptions=['allocation failure is out of scope', 'equality of code is checked as equality of instruction listings (assembly__)'], case_timeout=1500 if tier == "quick" else 5000, keyfn=lambda cid, v, rr, oid=oid: oid + ':' + next((x['rt']['cls'] for x in rr.get('violations', []) if x.get('rt') and x['msg'] == v['msg']), v.get('msg', '')[:70].replace(' ', '_')), replayfn=rep, step_limit=2_000_000_000,
                       sample_fn=lambda rr: dict(operators=rr.get('text'), trees=rr.get('n')) if rr.get('text') else None)
         if r:
             ob, recs = r
